@@ -37,3 +37,19 @@ Definition mverdict (c : mcase) : Z :=
   end%Z.
 Definition mmodel_out (c : mcase) : option (list float) :=
   let '(op, args, _, tbl) := c in @run_mop float (NumF tbl) op args.
+
+(* the point section of an encoded mesh: [number of points; 3 coordinates per point] *)
+Definition pts_prefix (tbl : list (Z * float * float)) (l : list float) : list float :=
+  match l with
+  | p :: _ => firstn (S (3 * Z.to_nat (@ntrunc float (NumF tbl) p))) l
+  | [] => []
+  end.
+(* (whole mesh, points only): 0 bit-exact, 1 within tolerance, 2 differs, 3/4 panic mismatch *)
+Definition mverdict2 (c : mcase) : Z * Z :=
+  let '(op, args, res, tbl) := c in
+  match @run_mop float (NumF tbl) op args, res with
+  | Some m, Some i => (cmp_lists tol_default m i, cmp_lists tol_default (pts_prefix tbl m) (pts_prefix tbl i))
+  | None, None => (0, 0)
+  | None, Some _ => (3, 3)
+  | Some _, None => (4, 4)
+  end%Z.
